@@ -145,7 +145,7 @@ impl Family for SocksFam {
             .boxed()
     }
     fn case_budget_s(&self) -> u64 {
-        90
+        150
     }
     fn run(&self, case: &SocksCase, _cx: &CaseCtx) -> CaseResult {
         let mut out = Outcome::new();
@@ -225,7 +225,7 @@ impl Family for SocksFam {
                         rest.extend_from_slice(&case.payload);
                         send_segments(&mut s, &rest, case.delivery, &case.cuts).await;
                     }
-                    let (rep, rclosed) = read_some(&mut s, 10, 20_000).await;
+                    let (rep, rclosed) = read_some(&mut s, 10, 12_000).await;
                     let accepted_now = |t: &TcpTarget, i: usize| t.n_conns() > before2[i];
                     if tunnel_expected {
                         match target {
